@@ -21,15 +21,19 @@ _API = ["Fb_new", "Fb_empty", "Fb_filled", "Fb_len", "Fb_is_empty", "Fb_clear", 
         "Fb_copy_once_from", "Fb_read_frame"]
 _DF = ["Df_deframe_line", "Df_deframe_crlf", "Df_deframe_null"]
 _READS = ["Fb_read_bytes", "Fb_read_byte", "Fb_try_read_byte", "Fb_try_read_bytes", "Fb_read_all", "Fb_read_and_copy_bytes", "Fb_try_read_exact"]
+_AFB = ["Tk_afb_poll_read", "Tk_afb_poll_write", "Tk_afb_poll_flush", "Tk_afb_poll_shutdown"]
+_AAD_R = ["Ta_achain_poll_read", "Ta_atake_poll_read"]
+_AAD_W = ["Ta_achain_poll_write", "Ta_achain_poll_flush", "Ta_achain_poll_shutdown", "Ta_atake_poll_write", "Ta_atake_poll_flush", "Ta_atake_poll_shutdown"]
 _ASYNC = ["Tk_arf_pre", "Tk_arf_post", "Tk_aco_pre", "Tk_aco_post"]
 GEN_SCOPE = {
     "C01": _API, "C03": _API, "C04": _API + _DF,
     "C02": ["Fb_read_frame"] + _DF, "C05": _DF, "C06": ["Fb_read_frame"] + _DF,
-    "C07": ["Fb_read_frame", "Fb_io_read", "Ad_chain_read", "Ad_take_read"] + _DF + _ASYNC,
+    "C07": ["Fb_read_frame", "Fb_io_read", "Ad_chain_read", "Ad_take_read"] + _DF + _ASYNC + _AAD_R + ["Tk_afb_poll_read"],
     "C08": ["Ad_chain_read"], "C09": ["Ad_take_read"],
     "C10": ["Fb_deframe", "Fb_mem_"] + _DF, "C11": ["Fb_try_parse"] + _READS,
     "C12": ["Fb_read_frame", "Fb_copy_once_from"],
-    "C13": ["Ad_chain_write", "Ad_chain_flush", "Ad_take_write", "Ad_take_flush"],
+    "C13": ["Ad_chain_write", "Ad_chain_flush", "Ad_take_write", "Ad_take_flush"] + _AAD_W,
+    "C16": _AAD_R, "C17": _AFB,
     "C14": _ASYNC, "C15": _ASYNC,
     "C19": ["Es_escape_ascii", "Es_fb_escape_ascii"],
 }
